@@ -63,11 +63,11 @@ PROPERTIES = {
                "free-symbol test; section rebuilders keep every assignment; memo invalidation; parenthesised location/scale templates. "
                "NOT decided: semantic equivalence of the if-flattening / alias rewrites."),
     "C03": dict(
-        specs=[S("D1"), S("A1-cond"), S("A4M"), S("FRESHCTX"), S("INDICATOR")],
+        specs=[S("D1"), S("A1-cond"), S("A4M"), S("FRESHCTX"), S("INDICATOR"), S("VOCAB", r"get_const_moment|get_support|dispatch"), S("TRANSFORMTERM")],
         clause="indicator polynomials of And/Or/Not/True/False equal their boolean meaning on all rows; composite conditions recurse into every child; the three "
                "get_moment bodies share the guarded-assignment shape. NOT decided: Atom's Lagrange indicator, power reduction, closure, coefficients."),
     "C04": dict(
-        specs=[S("ANSATZ"), S("FIT"), S("GEOMSUM"), S("SOLVERDISPATCH"), S("ROOTS"), S("SOLVERFLAG"), S("LOSSY", r"utils/expressions.py"), S("EXCEPT", r"get_all_roots")],
+        specs=[S("ANSATZ"), S("FIT"), S("GEOMSUM"), S("SPECIALCASES"), S("SOLVERDISPATCH"), S("ROOTS"), S("SOLVERFLAG"), S("LOSSY", r"utils/expressions.py"), S("EXCEPT", r"get_all_roots")],
         clause="the general solution of the characteristic-root solver has the m terms C*n**i*r**n (i < m) for every non-zero root of multiplicity m; its constants are fitted on (ansatz at n, n-th iterate) pairs "
                "taken from max(1, multiplicity of the root 0) on (the ansatz leaves the root 0 out); the summation solver is the geometric-sum identity x(n) = c**(n-s) x(s) + sum_{k=s}^{n-1} c**(n-k-1) f(k) "
                "(exponents, bounds and start index compared as rational functions) and is chosen only for acyclic systems; every root source is complete (all_roots / intervals(all=True) on square-free factors with the "
@@ -130,7 +130,7 @@ PROPERTIES = {
         clause="the rational kernel is not truncated to integers; the LLL loop returns only what passed the exact membership test. NOT decided: independence, completeness."),
     "C17": dict(
         specs=[S("SETTINGS-W"), S("SETTINGS-C"), S("ROOTS"), S("LOSSY", r"utils/expressions.py"), S("SOLVERFLAG"), S("REBUILD"), S("PARSER", r"_transform_categorical"),
-               S("ORDER", r"cond2arithm=True"), S("COND2ARITHM"), S("FLAGS")],
+               S("ORDER", r"cond2arithm=True"), S("COND2ARITHM"), S("FLAGS"), S("TYPERFIX"), S("TYPER")],
         clause="options are written only by the CLI setter and read at call time; settings<->options<->setter census; every root source is complete and approximations clear "
                "the flag; cond2arithm keeps every assignment; categorical expansion keeps index/value/probability aligned. NOT decided: equality of closed forms across settings."),
     "C18": dict(
